@@ -223,6 +223,11 @@ func ParseSearchQueryPlaceholdersSettings(statement sqlparser.Statement, schemaS
 			case *sqlparser.SubstrExpr:
 				colName = expr.Name
 			}
+			// any other left operand (a function, a cast, the convert(substr(..)) HashQuery.OnQuery writes for a
+			// literal comparison) is not a comparison of a column with a placeholder
+			if colName == nil {
+				return true, nil
+			}
 
 			columnInfo, err := FindColumnInfo(tableExps, colName, schemaStore)
 			if err != nil {
